@@ -14,7 +14,7 @@ import re, time, json, copy
 import vlib, gram, lrengine, lrcheck, lrtab, cgb, cgcheck
 
 PROP = "C13"
-TERMS = ["a", "b", "c", "d", "e", ","]
+TERMS = ["a", "b", "c", "d", "e", ",", "ab", "cba"]
 
 MACROS = {
     "M0": (["X"], [(None, [("n", "X")]), (None, [("m", "M0", [("n", "X")]), ("t", ","), ("n", "X")])]),
@@ -22,7 +22,8 @@ MACROS = {
     "M2": (["X"], [(None, [("t", "d"), ("n", "X"), ("t", "d")]), (None, [("n", "X")])]),
     "M3": (["X"], [(None, [("r", ("n", "X"), "+"), ("t", "e")])]),
     "C0": (["L"], [(("L", "==", "a"), [("n", "L")]), (("L", "!=", "a"), [("n", "L"), ("n", "L")]),
-                   (("L", "~~", "^[bc]$"), [("t", "d")]), (("L", "!~", "b"), [("t", "e"), ("t", "e")])]),
+                   (("L", "~~", "^[bc]$"), [("t", "d")]), (("L", "!~", "b"), [("t", "e"), ("t", "e")]),
+                   (("L", "~~", "a"), [("t", "d"), ("t", "e")])]),
 }
 LIT_ONLY = {"C0"}
 
@@ -236,7 +237,7 @@ def got_value(n):
 def gen_sym(r, mg_macros, nts, depth, lit_only=False):
     k = r.random()
     if lit_only or depth == 0 or k < 0.38:
-        return ("t", r.choice(["a", "b", "c"]))
+        return ("t", r.choice(["a", "b", "c", "ab", "cba"] if lit_only else ["a", "b", "c"]))
     if k < 0.5:
         return ("n", r.choice(nts))
     if k < 0.72 and mg_macros:
@@ -285,9 +286,11 @@ Local Open Scope string_scope.
 Definition q : string := String (ascii_of_nat 34) "".
 Definition debug (s : string) : string := q ++ s ++ q.
 (* the four conditions of the corpus, decided on the literals a..e (regex crate abstracted) *)
+Fixpoint has_char (c : ascii) (s : string) : bool :=
+  match s with EmptyString => false | String d r => orb (Ascii.eqb c d) (has_char c r) end.
 Definition rematch (re s : string) : bool :=
   if String.eqb re "^[bc]$" then orb (String.eqb s "b") (String.eqb s "c")
-  else if String.eqb re "b" then String.eqb s "b" else false.
+  else match re with String c EmptyString => has_char c s | _ => false end.
 Definition kcode (k : kind) : string := match k with KMacro n _ => "m" | KGroup => "g" | KStar => "s" | KPlus => "p" | KQuestion => "q" end.
 Definition enc (r : eres) : list string :=
   match r with
@@ -339,6 +342,9 @@ def run(tier):
     n = 40 if tier == "quick" else 400
     kinds_inv = [None, None, None, None, None, None, "arity", "nodef", "cond", "error-vs-bang"]
     mgs = [gen_grammar(r, i, invalid=kinds_inv[i % len(kinds_inv)]) for i in range(n)]
+    # every condition operator on every kind of literal, in grammars that are certainly conflict free
+    for j, lit in enumerate(["a", "b", "c", "ab", "cba"]):
+        mgs.append(MG("cond%d" % j, {"N0": [[("t", ","), ("m", "C0", [("t", lit)])], [("t", "c"), ("t", "c"), ("m", "M2", [("m", "C0", [("t", lit)])])]]}, ["C0", "M2"]))
     rows = model(mgs)
     ncase = nbad = 0
     dist = {"grammars": n, "accepted": 0, "conflict": 0, "ill_formed": 0, "created_nonterminals": 0, "words": 0, "accepted_words": 0}
@@ -390,7 +396,8 @@ def run(tier):
                                              only_in_lalrpop=[x for x in lhs if x not in want], only_in_model=[x for x in want if x not in lhs]))
         keep.append((mg, sub))
     # compiled values
-    sel = [(m, s_) for m, s_ in keep if "error" not in m.users][: (10 if tier == "quick" else 80)]
+    sel = [(m, s_) for m, s_ in keep if "error" not in m.users]
+    sel = [x for x in sel if x[0].name.startswith("cond")] + [x for x in sel if not x[0].name.startswith("cond")][: (10 if tier == "quick" else 80)]
     if sel:
         ok, out, binary, units = cgcheck.build_corpus(rep, lal, [m for m, _ in sel], variants=("t",) if tier == "quick" else ("t", "a"))
         if not ok:
